@@ -340,14 +340,54 @@ def forward_refs(fn):
                             res = {"l": tq["l"], "p": list(tq.get("p") or []) + list(pr[1:])}
         elif "use" in rv and ("mv" in rv["use"] or "cp" in rv["use"]):
             src = rv["use"].get("mv") or rv["use"].get("cp")
-            if not (src.get("p") or []):
+            sp = src.get("p") or []
+            if not sp:
                 res = resolve(src["l"], depth + 1)
+            elif len(sp) == 1 and isinstance(sp[0], dict) and "f" in sp[0] and str(sp[0]["f"]).isdigit():
+                # `_x = copy env.i` where env is (a move of) a single-definition tuple / closure environment built from reference `q`
+                a = src["l"]
+                for _ in range(6):
+                    rv2 = refdef.get(a)
+                    if rv2 is None or ndefs.get(a) != 1:
+                        a = None
+                        break
+                    if rv2.get("agg") in ("closure", "tuple"):
+                        break
+                    u2 = (rv2.get("use") or {}).get("mv") or (rv2.get("use") or {}).get("cp") if "use" in rv2 else None
+                    if u2 is None or (u2.get("p") or []):
+                        a = None
+                        break
+                    a = u2["l"]
+                if a is not None and a not in partial:
+                    ops = refdef[a].get("fields") or []
+                    i_ = int(sp[0]["f"])
+                    if i_ < len(ops):
+                        pj = ops[i_].get("mv") or ops[i_].get("cp")
+                        if pj is not None and not (pj.get("p") or []):
+                            q = pj["l"]
+                            if 1 <= q <= argc and q not in ndefs and q not in partial:
+                                # the operand is the (stable) reference parameter itself: `(*_x).rest` == `(*q).rest`
+                                target[l] = {"l": q, "p": ["deref"]}
+                                return target[l]
+                            res = resolve(q, depth + 1)
         target[l] = res
         return res
     for l in list(refdef):
         resolve(l)
     live = {l: t for l, t in target.items() if t is not None}
-    if not live:
+    # single-definition tuples / closure environments: component i *is* the operand it was built from (while that operand is stable)
+    aggdef = {}
+    for l, rv in refdef.items():
+        if rv is not None and ndefs.get(l) == 1 and l not in partial and rv.get("agg") in ("closure", "tuple"):
+            ops = []
+            for o in rv.get("fields") or []:
+                pj = o.get("mv") or o.get("cp")
+                q = pj["l"] if pj is not None and not (pj.get("p") or []) else None
+                stable = q is not None and q not in partial and ((1 <= q <= argc and q not in ndefs) or ndefs.get(q) == 1)
+                ops.append(q if stable else None)
+            if any(o is not None for o in ops):
+                aggdef[l] = ops
+    if not live and not aggdef:
         return fn
     nj = dict(j)
     nj["blocks"] = copy.deepcopy(j["blocks"])
@@ -355,11 +395,20 @@ def forward_refs(fn):
     def rewrite(x):
         if isinstance(x, dict):
             if "l" in x and isinstance(x["l"], int) and not isinstance(x["l"], bool):
-                pr = x.get("p") or []
-                if pr and pr[0] == "deref" and x["l"] in live:
-                    t = live[x["l"]]
-                    x["p"] = copy.deepcopy(t.get("p") or []) + pr[1:]
-                    x["l"] = t["l"]
+                for _ in range(6):
+                    pr = x.get("p") or []
+                    if pr and pr[0] == "deref" and x["l"] in live:
+                        t = live[x["l"]]
+                        x["p"] = copy.deepcopy(t.get("p") or []) + pr[1:]
+                        x["l"] = t["l"]
+                        continue
+                    if len(pr) >= 2 and x["l"] in aggdef and isinstance(pr[0], dict) and "f" in pr[0] and str(pr[0]["f"]).isdigit() \
+                            and int(pr[0]["f"]) < len(aggdef[x["l"]]) and aggdef[x["l"]][int(pr[0]["f"])] is not None and pr[1] == "deref":
+                        # `(*(env.i)).rest` where env.i was built from the reference `q`: `(*q).rest`
+                        x["l"] = aggdef[x["l"]][int(pr[0]["f"])]
+                        x["p"] = pr[1:]
+                        continue
+                    break
                 for e in x.get("p") or []:
                     if isinstance(e, dict):
                         rewrite(e)
